@@ -126,7 +126,7 @@ impl Property for C12 {
     }
 
     fn budget(tier: Tier) -> u64 {
-        tier.pick(20_000, 500_000)
+        tier.pick(20_000, 300_000)
     }
 
     fn rule() -> &'static str {
